@@ -133,6 +133,7 @@ fn main() {
 				keyed: false,
 				positions: None,
 				check_peek: true,
+				extra: None,
 			};
 			h.go(&sys, &Limits::depth(depth).wall_secs(if thorough { 120 } else { 20 }), true);
 		}
@@ -151,6 +152,7 @@ fn main() {
 				keyed: false,
 				positions: None,
 				check_peek: true,
+				extra: None,
 			};
 			h.go(&sys, &Limits::depth(if thorough { 8 } else { 8 }).wall_secs(60), true);
 		}
@@ -168,6 +170,7 @@ fn main() {
 			keyed: false,
 			positions: if thorough { None } else { Some(boundary_positions) },
 			check_peek: true,
+				extra: None,
 		});
 		let k = if thorough { 2 } else { 1 };
 		h.go(&sys, &Limits::deviation(k, 2 * maxn as u32 + 4).wall_secs(if thorough { 600 } else { 30 }).states(200_000_000), true);
@@ -209,6 +212,7 @@ fn main() {
 			keyed: false,
 			positions: None,
 			check_peek: true,
+				extra: None,
 		};
 		h.go(&sys, &Limits::depth(if thorough { 7 } else { 5 }).wall_secs(120), true);
 		// unit vectors, all-ones and ramp for every length
@@ -235,6 +239,7 @@ fn main() {
 			keyed: false,
 			positions: Some(|_| vec![0, 1]),
 			check_peek: true,
+				extra: None,
 		});
 		h.go(&sys, &Limits::deviation(1, 2 * maxn as u32 + 4).wall_secs(300).states(200_000_000), true);
 	}
@@ -259,6 +264,7 @@ fn main() {
 				keyed: false,
 				positions: None,
 				check_peek: true,
+				extra: None,
 			};
 			h.go(&sys, &Limits::depth(if thorough { 6 } else { 5 }).wall_secs(120), true);
 		}
@@ -274,6 +280,7 @@ fn main() {
 			keyed: false,
 			positions: if thorough { None } else { Some(boundary_positions) },
 			check_peek: true,
+				extra: None,
 		});
 		h.go(&sys, &Limits::deviation(if thorough { 2 } else { 1 }, 2 * maxn as u32 + 4).wall_secs(300).states(200_000_000), true);
 	}
@@ -292,6 +299,7 @@ fn main() {
 				keyed: false,
 				positions: None,
 				check_peek: true,
+				extra: None,
 			};
 			h.go(&sys, &Limits::depth(if thorough { 7 } else { 5 }).wall_secs(120), true);
 		}
@@ -307,6 +315,7 @@ fn main() {
 			keyed: false,
 			positions: if thorough { None } else { Some(boundary_positions) },
 			check_peek: true,
+				extra: None,
 		});
 		h.go(&sys, &Limits::deviation(if thorough { 2 } else { 1 }, 2 * maxn as u32 + 4).wall_secs(300).states(200_000_000), true);
 	}
